@@ -300,8 +300,18 @@ fn near(tape: &mut Tape, v: &Json) -> Json {
             }
             if let Some(xs) = tuple_items(v) {
                 let mut xs = xs.clone();
-                if tape.bool() {
-                    return Json::Array(xs);
+                match tape.below(4) {
+                    0 => return Json::Array(xs),
+                    // one component more / one less: a tuple is not equal to a tuple it is a prefix of
+                    1 => {
+                        xs.push(json!(0));
+                        return lit::tuple(xs);
+                    }
+                    2 if xs.len() >= 3 => {
+                        xs.pop();
+                        return lit::tuple(xs);
+                    }
+                    _ => {}
                 }
                 let k = tape.below(xs.len());
                 xs[k] = near(tape, &xs[k].clone());
@@ -594,6 +604,23 @@ impl Property for C19Prop {
         if case["kind"] == "identity-threads" {
             return check_identity_threads(case, stats);
         }
+        if case["kind"] == "identity-host-call" {
+            let program = case["program"].as_str().unwrap_or("");
+            let f = match crate::exec::run_program(program, false).outcome {
+                Outcome::Value(simplesl::variable::Variable::Function(f)) => f,
+                o => return fail("C19:identity-host-call:setup", format!("`{program}`: {}", o.short())),
+            };
+            stats.eval();
+            stats.nontrivial(program);
+            stats.label("identity: a function called by the host with itself");
+            let want = lit::tuple(vec![json!(true), json!(false), json!(true)]);
+            let arg = simplesl::variable::Variable::Function(f.clone());
+            let o = crate::exec::call_function(&f, vec![arg], false).outcome;
+            return match &o {
+                Outcome::Value(got) if lit::from_var(got).as_ref() == Some(&want) => Verdict::Pass,
+                o => fail("C19:identity-host-call:same-object", format!("`{program}` called through the host API with itself as argument: {} (expected {})", o.short(), lit::show(&want))),
+            };
+        }
         let (x, y) = (&case["x"], &case["y"]);
         let (px, py) = (case["px"].as_str().unwrap_or("literal"), case["py"].as_str().unwrap_or("literal"));
         let salt = case["salt"].as_u64().unwrap_or(0) as usize;
@@ -730,6 +757,28 @@ pub fn run(session: &Session) -> i32 {
     }
     for (program, same) in identity_catalogue() {
         cases.push(json!({"kind": "identity", "program": program, "same": same}));
+    }
+    // prefix tuples (all pairs of paths)
+    for (x, y) in [
+        (lit::tuple(vec![json!(1), json!(2)]), lit::tuple(vec![json!(1), json!(2), json!(3)])),
+        (lit::tuple(vec![json!(1), json!(2), json!(3)]), lit::tuple(vec![json!(1), json!(2)])),
+        (lit::tuple(vec![json!("a"), json!([])]), lit::tuple(vec![json!("a"), json!([]), Json::Null])),
+        (json!([lit::tuple(vec![json!(1), json!(2)])]), json!([lit::tuple(vec![json!(1), json!(2), json!(0)])])),
+    ] {
+        for px in PATHS {
+            for py in ["literal", "through-any-function", "array-element", "match-bound"] {
+                cases.push(json!({"x": x, "y": y, "px": px, "py": py, "salt": 1}));
+            }
+        }
+    }
+    // a function called through the host API is, inside its own body, the object the host holds
+    for program in [
+        "slf := (h: any) -> any { return (h == slf, h != slf, slf == h); }; slf",
+        "slf := (h: any) -> any { return ([h] == [slf], [h] != [slf], (slf, 1) == (h, 1)); }; slf",
+        "slf := (h: any) -> any { m := match h { (slf) => true, => false, }; return (m, !m, m); }; slf",
+        "slf := (h: any) -> any { g := () -> any { return slf; }; return (g() == h, g() != h, h == g()); }; slf",
+    ] {
+        cases.push(json!({"kind": "identity-host-call", "program": program}));
     }
     for expr in ["std.len", "std.convert.to_string", "std.convert.parse_int", "std.string.trim", "std.operators.int_sum", "std.operators.float_product", "std.math", "std.convert", "std", "[std.len, std.string.trim]", "struct{f := std.len}"] {
         cases.push(json!({"kind": "identity-threads", "expr": expr}));
